@@ -315,7 +315,7 @@ pub type LookupFn = Box<dyn Fn(&str, &str, Option<&MVer>) -> LookupOut>;
 
 /// Turn an API into a lookup closure (the router type is not nameable from
 /// outside the crate, so it lives inside the closure).
-pub fn into_lookup(api: ApiDescription<DynCtx>) -> LookupFn {
+pub fn into_lookup<C: dropshot::ServerContext>(api: ApiDescription<C>) -> LookupFn {
     let router = api.into_router();
     Box::new(move |method: &str, path: &str, v: Option<&MVer>| {
         let m = method_of(method);
